@@ -330,6 +330,12 @@ fn declutter(dbs: &Arc<Databases>) {
     remove_old_db_files();
 }
 
+/// Verification entry to the (private) periodic declutter step.
+#[cfg(feature = "verif")]
+pub fn verif_declutter(dbs: &Arc<Databases>) {
+    declutter(dbs)
+}
+
 pub fn snapshot_all_pendding_dbs(dbs: &Arc<Databases>) {
     let queue_len = { dbs.to_snapshot.read().unwrap().len() };
     log::info!("snapshot_all_pendding_dbs | queue_len == {}", queue_len);
